@@ -74,6 +74,7 @@ type Ctx struct {
 	nontriv  map[string]struct{}
 	OutDir   string
 	spins    int
+	perKind  map[string]int
 }
 
 func (c *Ctx) Thorough() bool { return c.Tier == "thorough" }
@@ -121,7 +122,11 @@ func (c *Ctx) Count(key string) { c.Stats[key]++ }
 
 func (c *Ctx) Violate(kind, what string, ops []string, detail any) {
 	c.nViol++
-	if c.nViol > 200 {
+	if c.perKind == nil {
+		c.perKind = map[string]int{}
+	}
+	c.perKind[kind]++
+	if c.perKind[kind] > 40 { // keep every kind visible
 		return
 	}
 	v := Violation{Property: c.Prop, Kind: kind, What: what, Ops: ops, Detail: detail}
